@@ -8,11 +8,14 @@
 //!   scale.chk.tri.bbox x1 y1 x2 y2 x3 y3         scale.chk.tri.contains x1 y1 x2 y2 x3 y3 px py
 //!   scale.chk.tri.translate x1 y1 x2 y2 x3 y3 dx dy
 //!   scale.chk.tri.points x1 y1 x2 y2 x3 y3 n     (points().take(n))
-use super::{b, coord, gen_simple, guard, lds, pds, K, XI};
+//!   scale.chk.rrect.confine x y w h <8 radii: tl tr br bl, w h each>
+//!   scale.chk.rrect.contains x y w h <8 radii> px py      scale.chk.rrect.offset x y w h <8 radii> o
+//!   scale.chk.rrect.points x y w h <8 radii> n   (points().take(n))
+use super::{b, biased, coord, gen_simple, guard, lds, ods, pds, rds, K, OFFS, XI, XU};
 use crate::common::*;
 use embedded_graphics::{
     prelude::*,
-    primitives::{ContainsPoint, Triangle},
+    primitives::{ContainsPoint, CornerRadii, OffsetOutline, RoundedRectangle, Triangle},
 };
 
 /// vertex coordinates beyond the display scale that keep walks along the edges short (at most
@@ -230,10 +233,145 @@ pub fn generate(tier: Tier, rng: &mut Rng, emit: &mut dyn FnMut(String)) {
         let k = if !far && i / 2 < whole { 5000 } else if far { *rng.pick(&[0i64, 1, 5, 40]) } else { *rng.pick(&[0i64, 1, 5, 40, 300]) };
         emit(format!("scale.chk.tri.points {} {}", join6(&v), k));
     }
+
+    // ---- rounded rectangles ------------------------------------------------------------------
+    // radii: any `u32` is display scale (`confine` brings them down to the sides)
+    const RV: [i64; 14] = [0, 1, 2, 3, 64, 640, 1024, 1280, 65535, 65536, (1 << 31) - 1, 1 << 31, u32::MAX as i64 - 1, u32::MAX as i64];
+    // sides beyond the display scale around the limits of the quadrant arithmetic
+    const RS: [i64; 12] = [4096, 4097, 8192, 23170, 23171, 46340, 46341, 46342, 65534, 65535, 65536, 70000];
+    let radii = |rng: &mut Rng, w: i64, h: i64| -> String {
+        let mut v: Vec<i64> = Vec::new();
+        let mode = rng.below(5);
+        for i in 0..8 {
+            let side = if i % 2 == 0 { w } else { h };
+            v.push(match mode {
+                0 => *rng.pick(&RV),
+                1 => rng.range(0, (side / 2).max(1)),
+                2 => *rng.pick(&[side / 2, (side + 1) / 2, side, side + 1, side / 3]),
+                3 => biased(rng),
+                _ => {
+                    if rng.chance(1, 2) {
+                        *rng.pick(&RV)
+                    } else {
+                        biased(rng)
+                    }
+                }
+            });
+        }
+        if rng.chance(1, 3) {
+            // equal corners
+            for i in 2..8 {
+                v[i] = v[i % 2];
+            }
+        }
+        v.iter().map(|x| x.to_string()).collect::<Vec<_>>().join(" ")
+    };
+    let rr_fixed = [
+        "0 0 0 0 0 0 0 0 0 0 0 0",
+        "0 0 10 10 5 5 5 5 5 5 5 5",
+        "0 0 10 10 50 50 50 50 50 50 50 50",
+        "0 0 20 30 50 50 50 50 50 50 50 50",
+        "20 20 81 81 20 20 20 20 200 200 20 20",
+        "-1152 -1152 1280 1280 640 640 640 640 640 640 640 640",
+        "2176 2176 1280 1279 4294967295 4294967295 4294967295 4294967295 4294967295 4294967295 4294967295 4294967295",
+        "0 0 1280 1280 4294967295 1 1 4294967295 4294967295 4294967295 0 0",
+        "0 0 1 1 4294967295 4294967295 4294967295 4294967295 4294967295 4294967295 4294967295 4294967295",
+        "0 0 4294967295 4294967295 4294967295 4294967295 4294967295 4294967295 4294967295 4294967295 4294967295 4294967295",
+        "0 0 4294967295 1 4294967295 4294967295 4294967295 4294967295 4294967295 4294967295 4294967295 4294967295",
+        "0 0 0 4294967295 4294967295 4294967295 4294967295 4294967295 4294967295 4294967295 4294967295 4294967295",
+        "0 0 46340 46340 23170 23170 23170 23170 23170 23170 23170 23170",
+        "0 0 46342 46342 23171 23171 23171 23171 23171 23171 23171 23171",
+        "0 0 65534 65534 32767 32767 32767 32767 32767 32767 32767 32767",
+        "0 0 65536 65536 32768 32768 32768 32768 32768 32768 32768 32768",
+        "0 0 65536 65536 32768 1 1 1 1 1 1 1",
+        "0 0 65536 65536 1 1 1 1 1 1 1 32768",
+        "2147483647 2147483647 10 10 3 3 3 3 3 3 3 3",
+        "2147483637 2147483637 10 10 3 3 3 3 3 3 3 3",
+        "2147483636 2147483636 10 10 3 3 3 3 3 3 3 3",
+        "-2147483648 -2147483648 10 10 3 3 3 3 3 3 3 3",
+        "1073741823 0 10 10 3 3 3 3 3 3 3 3",
+        "1073741824 0 10 10 3 3 3 3 3 3 3 3",
+        "-1073741824 0 10 10 3 3 3 3 3 3 3 3",
+        "-1073741825 0 10 10 3 3 3 3 3 3 3 3",
+        "0 0 2147483648 10 3 3 3 3 3 3 3 3",
+        "0 0 2147483647 10 3 3 3 3 3 3 3 3",
+        "0 0 10 2147483648 0 0 0 0 0 0 0 0",
+    ];
+    for f in rr_fixed {
+        emit(format!("scale.chk.rrect.confine {}", f));
+        for p in ["0 0", "5 5", "9 9", "1 0", "-1 0", "1279 1279", "46339 46339", "2147483646 2147483646"] {
+            emit(format!("scale.chk.rrect.contains {} {}", f, p));
+        }
+        for o in [-128, -3, -1, 0, 1, 128, i32::MAX as i64, i32::MIN as i64, -2147483647, 1073741824] {
+            emit(format!("scale.chk.rrect.offset {} {}", f, o));
+        }
+        emit(format!("scale.chk.rrect.points {} 40", f));
+    }
+    for i in 0..n {
+        let far = i % 3 == 2;
+        let (mut x, mut y, mut w, mut h) = (coord(rng), coord(rng), biased(rng), biased(rng));
+        if far {
+            match rng.below(4) {
+                0 => x = *rng.pick(&XI),
+                1 => y = *rng.pick(&XI),
+                2 => w = if rng.chance(1, 2) { *rng.pick(&RS) } else { *rng.pick(&XU) },
+                _ => h = if rng.chance(1, 2) { *rng.pick(&RS) } else { *rng.pick(&XU) },
+            }
+        }
+        let rd = radii(rng, w, h);
+        // probe: mostly inside the rectangle, half of them near a corner
+        let inside = |rng: &mut Rng, lo: i64, len: i64| -> i64 {
+            let v = match rng.below(4) {
+                0 => lo + rng.range(0, 3),
+                1 => lo + len - 1 - rng.range(0, 3),
+                2 => lo + rng.range(0, len.max(1)),
+                _ => lo + rng.range(-2, len + 2),
+            };
+            v.clamp(i32::MIN as i64, i32::MAX as i64)
+        };
+        let (px, py) = if rng.chance(1, 10) { (*rng.pick(&XI), *rng.pick(&XI)) } else { (inside(rng, x, w), inside(rng, y, h)) };
+        emit(format!("scale.chk.rrect.contains {} {} {} {} {} {} {}", x, y, w, h, rd, px, py));
+        if i % 2 == 0 {
+            emit(format!("scale.chk.rrect.confine {} {} {} {} {}", x, y, w, h, rd));
+            let o = if far && rng.chance(1, 2) { *rng.pick(&XI) } else { *rng.pick(&OFFS) };
+            emit(format!("scale.chk.rrect.offset {} {} {} {} {} {}", x, y, w, h, rd, o));
+        }
+    }
+    let whole = if tier == Tier::Quick { 12 } else { 60 };
+    for i in 0..n / 2 {
+        let far = i % 3 == 2;
+        let (mut x, mut y, mut w, mut h) = (coord(rng), coord(rng), biased(rng), biased(rng));
+        if far {
+            // walks along corner rows are as long as the radius: keep the sides below 70000
+            match rng.below(4) {
+                0 => x = *rng.pick(&XI),
+                1 => y = *rng.pick(&XI),
+                2 => w = *rng.pick(&RS),
+                _ => h = *rng.pick(&RS),
+            }
+        }
+        let all = !far && i / 2 < whole;
+        if all {
+            // small enough to be drained: every row, all four corners
+            w = rng.range(0, 70);
+            h = rng.range(0, 70);
+        }
+        let rd = radii(rng, w, h);
+        let k = if all { 5000 } else if far { *rng.pick(&[0i64, 1, 5, 40]) } else { *rng.pick(&[0i64, 1, 5, 40, 300]) };
+        emit(format!("scale.chk.rrect.points {} {} {} {} {} {}", x, y, w, h, rd, k));
+    }
 }
 
 fn tri(t: &mut Toks) -> Triangle {
     Triangle::new(t.point(), t.point(), t.point())
+}
+fn rrect(t: &mut Toks) -> RoundedRectangle {
+    let r = t.rect();
+    let (tl, tr, br, bl) = (t.size(), t.size(), t.size(), t.size());
+    RoundedRectangle::new(r, CornerRadii { top_left: tl, top_right: tr, bottom_right: br, bottom_left: bl })
+}
+fn fmt_radii(c: &CornerRadii) -> String {
+    format!("{},{};{},{};{},{};{},{}", c.top_left.width, c.top_left.height, c.top_right.width, c.top_right.height, c.bottom_right.width, c.bottom_right.height, c.bottom_left.width, c.bottom_left.height)
 }
 fn tri_ds(t: &Triangle) -> bool {
     t.vertices.iter().all(|p| lds(*p))
@@ -267,6 +405,32 @@ pub fn execute(kernel: &str, t: &mut Toks) -> Option<(String, bool)> {
             let tr = tri(t);
             let n = t.usize();
             (guard(|| fmt_pts(tr.points().take(n).collect::<Vec<Point>>())), tri_ds(&tr))
+        }
+        "rrect.confine" => {
+            let rr = rrect(t);
+            // total for every `u32` input
+            (guard(|| fmt_radii(&rr.confine_radii().corners)), true)
+        }
+        "rrect.contains" => {
+            let rr = rrect(t);
+            let p = t.point();
+            (guard(|| b(rr.contains(p))), rds(&rr.rectangle) && pds(p))
+        }
+        "rrect.offset" => {
+            let rr = rrect(t);
+            let o = t.i32();
+            (
+                guard(|| {
+                    let r = rr.offset(o);
+                    format!("{} {}", fmt_rect(&r.rectangle), fmt_radii(&r.corners))
+                }),
+                rds(&rr.rectangle) && ods(o),
+            )
+        }
+        "rrect.points" => {
+            let rr = rrect(t);
+            let n = t.usize();
+            (guard(|| fmt_pts(rr.points().take(n).collect::<Vec<Point>>())), rds(&rr.rectangle))
         }
         _ => return None,
     })
